@@ -344,6 +344,7 @@ package git
 //gvc:  ensures rollback: err != nil && now(headErr) == nil && calls("createBranch") + calls("setHEADToBranch") + calls("setHEADToCommit") + calls("Reset") >= 1 ==> calls("SetReference") >= 1 && lastarg("SetReference", 0) == now(head)
 //gvc:  ensures restored: err != nil && calls("Reference") >= 1 && now(headErr) == nil && calls("SetReference") >= 1 && lastres("SetReference") == nil ==> w.r.Storer.#refs[strid("HEAD")] == now(head)
 //gvc:  ensures uncreated: err != nil && calls("createBranch") >= 1 && lastres("createBranch") == nil ==> calls("RemoveReference") >= 1
+//gvc:  ensures kept: calls("createBranch") == 0 || lastres("createBranch") != nil ==> calls("RemoveReference") == 0
 //gvc:  sink RemoveReference requires own: strid(arg0) == strid(opts.Branch)
 //gvc:  sink SetReference requires saved: arg0 == head
 //gvc:end
@@ -381,4 +382,20 @@ package git
 //gvc:  sink NewLFWriter requires whole: file.#pos == 0 && forall(k, 0, file.#n, file.#data[k] != 0 && (file.#data[k] == '\r' ==> k + 1 < file.#n && file.#data[k + 1] == '\n'))
 //gvc:  sink NewLFWriter requires safecrlf: stat.CRLF == 0 || !spec_index_has_cr(strid(path))
 //gvc:  kf F24 safecrlf: stat.CRLF > 0 && spec_index_has_cr(strid(path))
+//gvc:end
+
+// Property C29 for Pull: the current branch (or a detached HEAD) is moved to
+// the fetched commit before Reset can refuse (unstaged changes); a pull whose
+// Reset fails puts back the reference it moved: the saved reference is written
+// back, or the name is removed again when the branch was unborn.
+//gvc:func (*Worktree).PullContext
+//gvc:  props C29
+//gvc:  theory int
+//gvc:  opt coarse
+//gvc:  opt frame args
+//gvc:  results err
+//gvc:  requires nn: w != nil && o != nil && w.r != nil
+//gvc:  ensures rollback: err != nil && calls("updateHEAD") >= 1 && lastres("updateHEAD") == nil && calls("Reset") >= 1 && lastres("Reset") != nil ==> calls("SetReference") + calls("RemoveReference") >= 1
+//gvc:  sink SetReference requires saved: arg0 == prev && prev != nil
+//gvc:  sink RemoveReference requires unborn: prev == nil && strid(arg0) == strid(prevName)
 //gvc:end
